@@ -17,13 +17,17 @@ func timeIntrinsic(ex *Exec, fn *ssa.Function, args []Value, site string) Value 
 	switch fn.String() {
 	case "time.FixedZone":
 		ex.opaqueID++
-		return Opaque{Kind: "loc", ID: ex.opaqueID, Data: map[string]Value{"off": args[1].(*T)}}
+		return Opaque{Kind: "loc", ID: ex.opaqueID, Data: map[string]Value{"off": args[1].(*T), "dst": C.False}}
 	case "time.Date":
 		y, mo, d := args[0].(*T), args[1].(*T), args[2].(*T)
 		h, mi, s := args[3].(*T), args[4].(*T), args[5].(*T)
 		off := ex.k64(0)
+		dst := C.False
 		if l, ok := args[7].(Opaque); ok && l.Kind == "loc" {
 			off = l.Data["off"].(*T)
+			if x, ok := l.Data["dst"].(*T); ok {
+				dst = x
+			}
 		}
 		k := func(v int64) *T { return ex.k64(v) }
 		rng := func(x *T, lo, hi int64) *T { return C.BAnd(C.Sle(k(lo), x), C.Sle(x, k(hi))) }
@@ -38,7 +42,7 @@ func timeIntrinsic(ex *Exec, fn *ssa.Function, args []Value, site string) Value 
 			ex.assume(inRange)
 		}
 		ex.opaqueID++
-		return Opaque{Kind: "time", ID: ex.opaqueID, Data: map[string]Value{"Y": y, "M": mo, "D": d, "h": h, "m": mi, "s": s, "off": off}}
+		return Opaque{Kind: "time", ID: ex.opaqueID, Data: map[string]Value{"Y": y, "M": mo, "D": d, "h": h, "m": mi, "s": s, "off": off, "dst": dst}}
 	}
 	name := fn.Name()
 	if len(args) > 0 {
@@ -61,7 +65,10 @@ func timeIntrinsic(ex *Exec, fn *ssa.Function, args []Value, site string) Value 
 			case "Zone":
 				return Tuple{ex.strConst("zone"), ex.timeField(t, "off")}
 			case "IsDST":
-				return C.False // fixed-offset zones only
+				if x, ok := t.Data["dst"].(*T); ok {
+					return x // zones built with vrt.ZoneDST carry their flag; fixed-offset zones are never DST
+				}
+				return C.False
 			}
 		}
 	}
